@@ -1061,7 +1061,8 @@ func (w *ledgerWorld) step(prev *ledgerSnap, kinds map[string]int) *ledgerSnap {
 			w.env.Outcome(fmt.Sprintf("undelegate.held=%d", held))
 			// holds are placed by dogfood's AfterUndelegationStarted hook for operators in the validator set; the
 			// split by entry point is printed because the two entry points do not share one keeper object
-			// (app.go hands the delegation keeper to the precompiles BY VALUE before SetHooks is called)
+			// (app.go hands the delegation keeper to the precompiles BY VALUE; before the F-16b fix the copy was made
+			// before SetHooks and the precompile path showed held=0 — monitored since in the conskeys domain, C16.entry)
 			if w.isCurrentValidator(op) {
 				w.env.Outcome(fmt.Sprintf("undelegate.from-validator.via-%s.held=%d", via, held))
 			}
